@@ -20,7 +20,13 @@ NAMES = ['width', 'height', 'angle', 'x_10', 'x_2', 'zeta', 'beta', 'alpha', 'ma
 
 def make_params(rng, d):
     # declaration order deliberately differs from the lexicographic order of the names
-    return [{'name': NAMES[i] if i < len(NAMES) else 'q%d' % (99 - i), 'bounds': list(rng.choice(BOXES))} for i in range(d)]
+    params = [{'name': NAMES[i] if i < len(NAMES) else 'q%d' % (99 - i), 'bounds': list(rng.choice(BOXES))} for i in range(d)]
+    if rng.random() < 0.2:
+        # every bound written as a Python int (bounds: [0, 1], [2, 1024], [-3, -1] ...): the designs are still real-valued
+        ints = [[0, 1], [-3, -1], [2, 1024], [-1000000, 1000000], [5, 6], [0, 10]]
+        for q in params:
+            q['bounds'] = list(rng.choice(ints))
+    return params
 
 
 def unit(x, b):
